@@ -11,6 +11,7 @@ import (
 	"encoding/base64"
 	"fmt"
 	"hash"
+	"strings"
 
 	"github.com/beevik/etree"
 	"github.com/russellhaering/gosaml2/types"
@@ -52,9 +53,16 @@ type EncSpec struct {
 	To        CertRef  `json:"to"`
 	Recipient *CertRef `json:"recipient,omitempty"` // certificate named in EncryptedKey/KeyInfo
 	RecipRaw  string   `json:"recipRaw,omitempty"`  // raw override of that text
-	Key       []byte   `json:"key"`                 // content-encryption key
-	IV        []byte   `json:"iv"`                  // 12 bytes (GCM) or 16 (CBC)
-	PadFill   byte     `json:"padFill"`             // filler for CBC padding bytes other than the last
+	// RecipWrap: the recipient certificate's base64 is broken into lines of this many characters (64 PEM, 76 MIME;
+	// negative: CRLF line ends), as most XML security libraries write it. 0 = one line.
+	RecipWrap int `json:"recipWrap,omitempty"`
+	// Decoy: with an INLINE key, a second xenc:EncryptedKey as a sibling of EncryptedData (where a detached key
+	// goes) that is meant for somebody else — "other": wrapped for E2 and naming E2's certificate; "garbage": an
+	// undecryptable CipherValue. SAML allows one EncryptedKey per recipient; the inline one is this SP's.
+	Decoy   string `json:"decoy,omitempty"`
+	Key     []byte `json:"key"`     // content-encryption key
+	IV      []byte `json:"iv"`      // 12 bytes (GCM) or 16 (CBC)
+	PadFill byte   `json:"padFill"` // filler for CBC padding bytes other than the last
 	// overrides for the ciphertext explorer
 	RawCipher    []byte `json:"rawCipher,omitempty"` // if UseRawCipher, the data CipherValue bytes verbatim
 	UseRawCipher bool   `json:"useRawCipher,omitempty"`
@@ -149,6 +157,21 @@ func (e *EncSpec) EncryptElement(plain []byte, ns NSStyle) (*etree.Element, erro
 			txt := e.RecipRaw
 			if txt == "" {
 				txt = base64.StdEncoding.EncodeToString(e.Recipient.DER())
+				if w := e.RecipWrap; w != 0 {
+					nl := "\n"
+					if w < 0 {
+						w, nl = -w, "\r\n"
+					}
+					var sb strings.Builder
+					for i := 0; i < len(txt); i += w {
+						end := i + w
+						if end > len(txt) {
+							end = len(txt)
+						}
+						sb.WriteString(txt[i:end] + nl)
+					}
+					txt = sb.String()
+				}
 			}
 			ki.CreateElement("ds:X509Data").CreateElement("ds:X509Certificate").SetText(txt)
 		}
@@ -171,6 +194,25 @@ func (e *EncSpec) EncryptElement(plain []byte, ns NSStyle) (*etree.Element, erro
 			ki := ed.CreateElement("ds:KeyInfo")
 			declNS(ki, "ds", NSDsig)
 			ki.AddChild(ek)
+			if e.Decoy != "" {
+				other := CertRef{Key: "E2", Window: "wide"}
+				dk := mk("xenc", "EncryptedKey")
+				declNS(dk, "xenc", NSXenc)
+				dk.CreateElement("xenc:EncryptionMethod").CreateAttr("Algorithm", e.Transport)
+				dki := dk.CreateElement("ds:KeyInfo")
+				declNS(dki, "ds", NSDsig)
+				dki.CreateElement("ds:X509Data").CreateElement("ds:X509Certificate").SetText(base64.StdEncoding.EncodeToString(other.DER()))
+				cv := "AAAA"
+				if e.Decoy == "other" {
+					o := *e
+					o.To = other
+					if w, err := o.WrapKey(); err == nil {
+						cv = base64.StdEncoding.EncodeToString(w)
+					}
+				}
+				dk.CreateElement("xenc:CipherData").CreateElement("xenc:CipherValue").SetText(cv)
+				ea.AddChild(dk)
+			}
 		}
 	}
 	if !e.NoCipherData {
